@@ -244,7 +244,7 @@ def TAk (fl : Bool) (tmpl : Term) (max : Nat) (prog : List Term) (F k : Nat) : P
     m.user.answers = ans0 → id ≠ 0 → id ∉ lv.map Prod.fst →
     Shape g →
     SimAt fl tmpl max lv K env m.user.nextVar R q nv
-      (fun σ π D => InD D g ∧ ∀ it' ∈ it :: its, AltRel fl σ π D nv d g it'.1 it'.2) →
+      (fun σ π D => InD D g ∧ AltsRel fl σ π D nv d g (it :: its)) →
     SLD.solveAlts false (progS prog) n d nv ((it :: its).filterMap (·.2)) R q (max - ans0.length) = some r →
     LvOK lv d → StOK prog m → ans0.length < max →
     sig = .illScoped ∨ Match tmpl max prog lv ans0 m m' sig r
@@ -627,289 +627,6 @@ theorem alt_tail {k : Nat} (ihP : TPk fl tmpl max prog F k) {t : Thunk} {f q0 : 
       obtain ⟨rfl, rfl⟩ := hresA
       exact ⟨hm.ans, Or.inr (Or.inr (Or.inr ⟨F', c1, c2, ex, co', rfl, hstop⟩)), hm.st,
         Nat.le_trans hmm1 hm.nvar⟩
-
-theorem Forall2.imp_mem2 {α β : Type} {R S : α → β → Prop} {as : List α} {bs : List β} (h : Forall2 R as bs)
-    (hRS : ∀ a, ∀ b ∈ bs, R a b → S a b) : Forall2 S as bs := by
-  induction h with
-  | nil => exact .nil
-  | cons hd _ ih => exact .cons (hRS _ _ (by simp) hd) (ih (fun a b hb => hRS a b (by simp [hb])))
-
-theorem Forall2.comp {α β γ : Type} {R : α → β → Prop} {S : β → γ → Prop} {as : List α} {bs : List β}
-    (h : Forall2 R as bs) : ∀ {cs : List γ}, Forall2 S bs cs → Forall2 (fun a c => ∃ b ∈ bs, R a b ∧ S b c) as cs := by
-  induction h with
-  | nil => intro cs h2; cases h2; exact .nil
-  | cons hd _ ih =>
-    intro cs h2
-    cases h2 with
-    | cons hd2 tl2 =>
-      exact .cons ⟨_, by simp, hd, hd2⟩ (Forall2.imp (ih tl2) (fun a c ⟨b, hb, h1, h2⟩ => ⟨b, by simp [hb], h1, h2⟩))
-
-/-- the goals of a clause body (cut parent `id`, level `d`) in front of the pending goals -/
-theorem cutsOK_body {lv : Lv} {d id : Nat} {G1 G : List (Term × Nat)} (hok : LvOK lv d)
-    (hidn : id ∉ lv.map Prod.fst) (hG1id : ∀ it ∈ G1, it.2 = id) (hco : CutsOK lv G) :
-    CutsOK ((id, some d) :: lv) (G1 ++ G) := by
-  have hext := hext_push (lv := lv) (id := id) (some d) hidn
-  have hcoG : CutsOK ((id, some d) :: lv) G := cutsOK_ext hext hco
-  refine ⟨?_, ?_⟩
-  · intro it hit hcut
-    rcases List.mem_append.1 hit with h | h
-    · exact ⟨d, by rw [hG1id it h, lev_cons_self]⟩
-    · exact hcoG.1 it h hcut
-  · refine List.pairwise_append.2 ⟨?_, hcoG.2, ?_⟩
-    · induction G1 with
-      | nil => exact .nil
-      | cons a G1 ih =>
-        refine List.pairwise_cons.2 ⟨?_, ih (fun it hit => hG1id it (by simp [hit]))⟩
-        intro b hb _ _ la lb hla hlb
-        rw [hG1id a (by simp), lev_cons_self] at hla
-        rw [hG1id b (by simp [hb]), lev_cons_self] at hlb
-        simp only [Option.some.injEq] at hla hlb
-        omega
-    · intro a ha b hb _ hcb la lb hla hlb
-      rw [hG1id a ha, lev_cons_self] at hla
-      simp only [Option.some.injEq] at hla
-      obtain ⟨l0, hl0⟩ := hco.1 b hb hcb
-      have := hext _ _ hl0
-      rw [this] at hlb
-      simp only [Option.some.injEq] at hlb
-      have := hok.lev_lt hl0
-      omega
-
-/-- a goal of the fragment whose instance is the cut is the cut -/
-theorem cut_of_inst {fl : Bool} {bg : Term} (hg : goalS fl bg = true) {κ : Nat → Nat} {τ : Subst}
-    (h : (bg.rename κ).subst τ = .atom "!") : bg = .atom "!" := by
-  cases bg with
-  | atom a => simpa [Term.rename, Term.subst] using h
-  | app f as => simp [Term.rename, Term.subst] at h
-  | var v => simp [goalS, stepGoal, hornGoal, isCall1] at hg
-  | int _ => simp [goalS, stepGoal, hornGoal, isCall1] at hg
-  | flt _ => simp [goalS, stepGoal, hornGoal, isCall1] at hg
-  | str _ => simp [goalS, stepGoal, hornGoal, isCall1] at hg
-
-theorem ta_succ {k : Nat} (ihP : TPk fl tmpl max prog F k) (hprog : ∀ c ∈ prog, clauseS fl c = true) :
-    TAk fl tmpl max prog F (k + 1) := by
-  intro it its id g K env R q nv n d r lv m sig m' ans0 hda hgood hans hid0 hidn hshape hsim hs hok hst hlt
-  subst hans
-  obtain ⟨c, oa⟩ := it
-  simp only at hda hgood
-  cases hev : evalThunk F (Thunk.clause (clauseOf c) (argList g) K env id) m with
-  | none => rw [dfsAlts_thunk_none (sem := VM.sem F) (by exact hev)] at hda; cases hda
-  | some pr =>
-  obtain ⟨q0, m1⟩ := pr
-  have hsim0 := hsim
-  obtain ⟨N, σ, π, D, G, hN, hW, hcg, hgr, hco, hq', hgD, halts⟩ := hsim
-  have hit : AltRel fl σ π D nv d g c oa := halts (c, oa) (by simp)
-  -- the remaining alternatives, from a later state
-  have hrest : ∀ (m2 : MS) (r' : SLD.Res) (n0 : Nat), m.user.nextVar ≤ m2.user.nextVar →
-      SLD.solveAlts false (progS prog) n0 d nv (its.filterMap (·.2)) R q (max - m2.user.answers.length) = some r' →
-      PSpec fl tmpl max prog lv d
-        { id := id, delayed := its.map (fun it => Thunk.clause (clauseOf it.1) (argList g) K env id) }
-        m2 m2.user.answers r' := by
-    intro m2 r' n0 h2 h3
-    refine .alts rfl hid0 hshape ?_ h3
-    obtain ⟨N0, σ0, π0, D0, G0, a1, a2, a3, a4, a5, a6, a7, a8⟩ := hsim0.mono h2
-    exact ⟨N0, σ0, π0, D0, G0, a1, a2, a3, a4, a5, a6, a7, fun it' hit' => a8 it' (by simp [hit'])⟩
-  have hext := hext_push (lv := lv) (id := id) (some d) hidn
-  cases hit with
-  | prog hcs hkeyc =>
-    -- a clause of the program
-    cases n with
-    | zero => rw [solveAlts_zero] at hs; cases hs
-    | succ n' =>
-    obtain ⟨_, hcr⟩ := clauseOf_spec c (clauseC_of_S hcs)
-    simp only [List.filterMap_cons] at hs
-    rw [solveAlts_clause] at hs
-    simp only [ruleOf, headBody_shift_rule] at hs
-    have hkey : functorName g = functorName (SLD.headBody c).1 ∧
-        (argList g).length = (argList (SLD.headBody c).1).length := by
-      have := hkeyc
-      simp only [headKey, goalKey, Prod.mk.injEq] at this
-      exact ⟨this.1.symm, this.2.symm⟩
-    unfold SLD.unify at hs
-    rcases thunk_head (max := max) hcr hW F g K id m (q0, m1) hN hgD hshape hkey hev with
-      ⟨N', hN', hres, hnomgu⟩ | ⟨fuel', env', N', K1, Bs, hN', hcont, hBs, hnoclash, hokh⟩
-    · -- the head unification fails on the VM
-      simp only [Prod.mk.injEq] at hres
-      obtain ⟨rfl, rfl⟩ := hres
-      cases hr : Robinson.solve n' [(img σ π g, SLD.shift nv (SLD.headBody c).1)] [] with
-      | mgu θ => exact absurd hr (hnomgu _ _)
-      | clash =>
-        rw [hr] at hs
-        simp only [Nat.sub_zero, Option.map_eq_some_iff] at hs
-        obtain ⟨r', hr', rfl⟩ := hs
-        rw [prepend_nil]
-        exact alt_fail ihP hda hgood hev hN' (hrest (tick (bump m N')) r' n' hN' hr') hok hst hlt
-      | occurs => rw [hr] at hs; simp at hs
-      | outOfFuel => rw [hr] at hs; simp at hs
-    · -- the head unification succeeds on the VM
-      cases hr : Robinson.solve n' [(img σ π g, SLD.shift nv (SLD.headBody c).1)] [] with
-      | clash => exact absurd hr (hnoclash _)
-      | occurs => rw [hr] at hs; simp at hs
-      | outOfFuel => rw [hr] at hs; simp at hs
-      | mgu θ =>
-        rw [hr] at hs
-        simp only at hs
-        obtain ⟨σ', π', D', G1, hW', hDD', heq, hcgK1, hbody⟩ := hokh n' θ hr
-        cases hs1 : SLD.solve false (progS prog) n' (d + 1) (nv + SLD.maxVar (SLD.rule (SLD.headBody c).1 (SLD.headBody c).2))
-            ((SLD.bodyFrames false (SLD.shift nv (SLD.headBody c).2) d ++ R).map (SLD.Frame.subst θ))
-            (Robinson.applySubst θ q) (max - m.user.answers.length) with
-        | none => rw [hs1] at hs; simp at hs
-        | some r1 =>
-          rw [hs1] at hs
-          simp only at hs
-          have hgrR : GRel ((id, some d) :: lv) σ' π' D' G (R.map (SLD.Frame.subst θ)) :=
-            (grel_ext hext hgr).step hDD' θ heq
-          have hcoG : CutsOK ((id, some d) :: lv) G := cutsOK_ext hext hco
-          have hq1 : Robinson.applySubst θ q = img σ' π' tmpl := by
-            rw [applySubst_eq, hq', heq tmpl hW.tmplD]
-          have hG1id : ∀ it ∈ G1, it.2 = id := forall2_left hbody (fun a b h => h.2.1)
-          have hcoAll : CutsOK ((id, some d) :: lv) (G1 ++ G) := cutsOK_body hok hidn hG1id hco
-          have hspec1 : PSpec fl tmpl max prog ((id, some d) :: lv) (d + 1) q0 m1 m.user.answers r1 ∧ StOK prog m1 ∧
-              N' ≤ m1.user.nextVar := by
-            rcases hBs with hBs | ⟨hBs, hb⟩
-            · have hgr1 : GRel ((id, some d) :: lv) σ' π' D' (G1 ++ G)
-                  ((SLD.bodyFrames false (SLD.shift nv (SLD.headBody c).2) d ++ R).map (SLD.Frame.subst θ)) := by
-                rw [List.map_append]
-                refine Forall2.append ?_ hgrR
-                simp only [SLD.bodyFrames, conjuncts_shift, hBs, Bool.false_eq_true, if_false, List.map_map]
-                exact body_grel (lev_cons_self id (some d) lv) hbody
-              exact cont_run tmpl max prog hprog fuel' K1 env' (bump m N') q0 m1 hcont
-                (fun hfl => hgood _ _ .here hfl _ hev) _ _ _ _
-                ⟨N', σ', π', D', G1 ++ G, Nat.le_refl _, hW', hcgK1 G hcg, hgr1, hcoAll, hq1, trivial⟩
-                (stOK_bump hst N') n' (d + 1) r1 hs1
-            · subst hBs
-              cases hbody
-              have e1 : (SLD.bodyFrames false (SLD.shift nv (SLD.headBody c).2) d ++ R).map (SLD.Frame.subst θ) =
-                  SLD.Frame.goal (.atom "true") d :: R.map (SLD.Frame.subst θ) := by
-                rw [hb]
-                simp [SLD.bodyFrames, SLD.shift, SLD.conjuncts, SLD.wrapVar, SLD.Frame.subst, applySubst_eq, Term.subst]
-              rw [e1] at hs1
-              cases n' with
-              | zero => rw [solve_zero] at hs1; cases hs1
-              | succ n'' =>
-                rw [solve_true] at hs1
-                exact cont_run tmpl max prog hprog fuel' K1 env' (bump m N') q0 m1 hcont
-                  (fun hfl => hgood _ _ .here hfl _ hev) _ _ _ _
-                  ⟨N', σ', π', D', G, Nat.le_refl _, hW', by simpa using hcgK1 G hcg, hgrR, hcoG, hq1, trivial⟩
-                  (stOK_bump hst N') n'' (d + 1) r1 hs1
-          obtain ⟨hspec, hst1, hnv1⟩ := hspec1
-          exact alt_tail ihP hda hgood hev rfl rfl hid0 hidn hok hlt hspec hst1 (Nat.le_trans hN' hnv1) hs
-            (fun m2 r' h2 _ h3 => hrest m2 r' n' h2 h3)
-  | frames κ nv' τ2 hcl hkeyc hnv hκ1 hκ2 hκ3 hτ hsm1 hsm2 hFs =>
-    -- a clause the reference has no clause for: `call/1`'s clause, a control clause of bootstrap.pl
-    rename_i Fs
-    cases n with
-    | zero => rw [solveAlts_zero] at hs; cases hs
-    | succ n' =>
-    obtain ⟨_, hcr⟩ := clauseOf_spec c hcl
-    simp only [List.filterMap_cons] at hs
-    rw [solveAlts_frames_cons] at hs
-    have hkey : functorName g = functorName (SLD.headBody c).1 ∧
-        (argList g).length = (argList (SLD.headBody c).1).length := by
-      have := hkeyc
-      simp only [headKey, goalKey, Prod.mk.injEq] at this
-      exact ⟨this.1.symm, this.2.symm⟩
-    rcases thunk_head' (max := max) hcr hW F g K id m (q0, m1) hN hgD hshape hkey hev κ nv' hnv hκ1 hκ2 hκ3 with
-      ⟨N', _, _, hno⟩ | ⟨fuel', env', N', K1, Bs, hN', hcont, hBs, _, hokh⟩
-    · exact absurd hτ.sound (hno _)
-    · obtain ⟨σ', π', D', G1, hW', hDD', heq, hcgK1, hbody, hDchar⟩ := hokh _ hτ
-      -- the images of the terms in use do not change
-      have himg_old : ∀ t, InD D t → img σ' π' t = img σ π t := by
-        intro t ht
-        rw [heq t ht]
-        apply hsm1
-        intro z hz
-        have hz' : ((t.subst σ).rename π).hasVar z = true := hz
-        obtain ⟨u, hu, rfl⟩ := hasVar_rename _ hz'
-        exact hW.bnd u (vars_subst_rv ht hu)
-      have hvar : ∀ v : Nat, ∀ P : Nat → Prop, P v → ∀ w, (Term.var v).hasVar w = true → P w := by
-        intro v P hP w hw
-        simp only [Term.hasVar, beq_iff_eq] at hw
-        subst hw; exact hP
-      have hWB : SimW tmpl N' env' σ' π' D' nv := by
-        refine ⟨hW'.mg, hW'.chain, hW'.pos, hW'.dlt, hW'.inj, ?_, hW'.tmplD⟩
-        rintro x ⟨v, hv, hx⟩
-        have h1 : (img σ' π' (.var v)).hasVar (π' x) = true := by
-          simpa [img, Term.subst] using hasVar_rename_of hx
-        rcases hDchar v hv with hv0 | ⟨x0, hx0, hx0e⟩
-        · rw [himg_old (.var v) (hvar v _ hv0)] at h1
-          have h1' : (((Term.var v).subst σ).rename π).hasVar (π' x) = true := h1
-          obtain ⟨u, hu, hux⟩ := hasVar_rename _ h1'
-          rw [← hux]
-          exact hW.bnd u (vars_subst_rv (t := .var v) (hvar v _ hv0) hu)
-        · rw [hx0e] at h1
-          simp only [Term.rename, Term.subst] at h1
-          exact hsm2 x0 hx0 _ h1
-      have hq1 : q = img σ' π' tmpl := by rw [hq', himg_old tmpl hW.tmplD]
-      have hgrR : GRel ((id, some d) :: lv) σ' π' D' G R :=
-        (grel_ext hext hgr).step_id hDD' himg_old
-      have hcoG : CutsOK ((id, some d) :: lv) G := cutsOK_ext hext hco
-      have hG1id : ∀ it ∈ G1, it.2 = id := forall2_left hbody (fun a b h => h.2.1)
-      have hcoAll : CutsOK ((id, some d) :: lv) (G1 ++ G) := cutsOK_body hok hidn hG1id hco
-      have hbS : bodyS fl (SLD.headBody c).2 = true := by
-        simp only [clauseC, Bool.and_eq_true] at hcl; exact hcl.2
-      cases hs1 : SLD.solve false (progS prog) n' (d + 1) nv (Fs ++ R) q (max - m.user.answers.length) with
-      | none => rw [hs1] at hs; simp at hs
-      | some r1 =>
-      rw [hs1] at hs
-      simp only at hs
-      have hspec1 : PSpec fl tmpl max prog ((id, some d) :: lv) (d + 1) q0 m1 m.user.answers r1 ∧ StOK prog m1 ∧
-          N' ≤ m1.user.nextVar := by
-        rcases hBs with hBs | ⟨hBs, hbt⟩
-        · have hgr1 : GRel ((id, some d) :: lv) σ' π' D' (G1 ++ G) (Fs ++ R) := by
-            refine Forall2.append ?_ hgrR
-            rw [← hBs] at hbody
-            refine Forall2.imp (hbody.comp hFs) ?_
-            rintro g1 fr ⟨bg, hbg, ⟨h1, h2, h3⟩, l, rfl, hl⟩
-            refine ⟨h1, l, by rw [h3], fun hc => ?_⟩
-            have hbgS : goalS fl bg = true := by
-              simp only [bodyS, List.all_eq_true] at hbS
-              exact hbS bg hbg
-            have : bg = .atom "!" := cut_of_inst hbgS (by rw [← h3, hc]; rfl)
-            rw [h2, lev_cons_self, hl this]
-          exact cont_run tmpl max prog hprog fuel' K1 env' (bump m N') q0 m1 hcont
-            (fun hfl => hgood _ _ .here hfl _ hev) _ _ _ _
-            ⟨N', σ', π', D', G1 ++ G, Nat.le_refl _, hWB, hcgK1 G hcg, hgr1, hcoAll, hq1, trivial⟩
-            (stOK_bump hst N') n' (d + 1) r1 hs1
-        · subst hBs
-          cases hbody
-          rw [hbt] at hFs
-          have e1 : ∃ l, Fs = [SLD.Frame.goal (.atom "true") l] := by
-            have hc1 : SLD.conjuncts (.atom "true") = [.atom "true"] := by simp [SLD.conjuncts, SLD.wrapVar]
-            rw [hc1] at hFs
-            cases hFs with
-            | cons hd tl =>
-              cases tl
-              obtain ⟨l, rfl, _⟩ := hd
-              exact ⟨l, rfl⟩
-          obtain ⟨l, rfl⟩ := e1
-          cases n' with
-          | zero => rw [solve_zero] at hs1; cases hs1
-          | succ n'' =>
-            rw [List.singleton_append, solve_true] at hs1
-            exact cont_run tmpl max prog hprog fuel' K1 env' (bump m N') q0 m1 hcont
-              (fun hfl => hgood _ _ .here hfl _ hev) _ _ _ _
-              ⟨N', σ', π', D', G, Nat.le_refl _, hWB, by simpa using hcgK1 G hcg, hgrR, hcoG, hq1, trivial⟩
-              (stOK_bump hst N') n'' (d + 1) r1 hs1
-      obtain ⟨hspec, hst1, hnv1⟩ := hspec1
-      exact alt_tail ihP hda hgood hev rfl rfl hid0 hidn hok hlt hspec hst1 (Nat.le_trans hN' hnv1) hs
-        (fun m2 r' h2 _ h3 => hrest m2 r' n' h2 h3)
-  | dead κ nv' hcl hkeyc hnv hκ1 hκ2 hκ3 hclash =>
-    -- the head cannot unify with the goal
-    obtain ⟨_, hcr⟩ := clauseOf_spec c hcl
-    simp only [List.filterMap_cons] at hs
-    have hkey : functorName g = functorName (SLD.headBody c).1 ∧
-        (argList g).length = (argList (SLD.headBody c).1).length := by
-      have := hkeyc
-      simp only [headKey, goalKey, Prod.mk.injEq] at this
-      exact ⟨this.1.symm, this.2.symm⟩
-    rcases thunk_head' (max := max) hcr hW F g K id m (q0, m1) hN hgD hshape hkey hev κ nv' hnv hκ1 hκ2 hκ3 with
-      ⟨N', hN', hres, _⟩ | ⟨fuel', env', N', K1, Bs, hN', hcont, hBs, hnoclash, hokh⟩
-    · simp only [Prod.mk.injEq] at hres
-      obtain ⟨rfl, rfl⟩ := hres
-      exact alt_fail ihP hda hgood hev hN' (hrest (tick (bump m N')) r n hN' hs) hok hst hlt
-    · obtain ⟨n0, hn0⟩ := hclash
-      exact absurd hn0 (hnoclash n0)
 
 end
 
